@@ -324,7 +324,7 @@ def rule_frame(c: Ctx) -> RuleResult:
                 r.add(key, c.where(f, m), f.short, U(m), "exempt", "constructor scan: a physical line is scanned from its start, the frames coincide")
                 continue
             from ..interproc import expand
-            ok = _mentions_bscount(m.left) or _mentions_bscount(expand(c, f, m.left, m))
+            ok = _absolute(m.left) or _absolute(expand(c, f, m.left, m))
             r.add(key, c.where(f, m), f.short, U(m), "discharged" if ok else "violation",
                   "tab stop computed on the absolute column (bsCount term present)" if ok else
                   "tab stop computed on a column relative to the logical line start: inside a container whose prefix is not a multiple "
@@ -332,6 +332,35 @@ def rule_frame(c: Ctx) -> RuleResult:
             for x in ast.walk(m.left):
                 if isinstance(x, ast.IfExp) and isinstance(x.test, ast.Name):
                     col_flags.setdefault(x.test.id, []).append(x.test)
+            # ---- T4: a line-table cell used in the computation through a local alias must not be hoisted out of a loop that moves
+            #          on to other lines (the alias keeps the offset of the line it was read for)
+            for x in ast.walk(m.left):
+                if not isinstance(x, ast.Name):
+                    continue
+                defs = [d for d in own_nodes(f.node) if isinstance(d, ast.Assign) and len(d.targets) == 1 and isinstance(d.targets[0], ast.Name)
+                        and d.targets[0].id == x.id]
+                if len(defs) != 1 or not (isinstance(defs[0].value, ast.Subscript) and isinstance(defs[0].value.value, ast.Attribute)
+                                          and defs[0].value.value.attr in ("bsCount", "sCount", "tShift", "bMarks", "eMarks")):
+                    continue
+                d = defs[0]
+                idx_names = {y.id for y in ast.walk(d.value.slice) if isinstance(y, ast.Name)}
+                loops = []
+                q = f.module.parents.get(m)
+                while q is not None and q is not f.node:
+                    if isinstance(q, (ast.While, ast.For)):
+                        loops.append(q)
+                    q = f.module.parents.get(q)
+                stale = ""
+                for L in loops:
+                    if any(y is d for y in ast.walk(L)):
+                        continue            # defined inside this loop: re-read on every iteration
+                    moved = {t.id for n_ in ast.walk(L) for t in _store_names(n_)} & idx_names
+                    if moved:
+                        stale = f"`{x.id} = {U(d.value)}` is read once before the loop at line {L.lineno}, which reassigns {sorted(moved)}"
+                        break
+                r.add(f"{f.short}|T4|{alpha(f, m)}|{x.id}", c.where(f, m), f.short, U(m), "violation" if stale else "discharged",
+                      f"a stale copy of a line-table cell is used for the column: {stale}; later lines are measured with the first line's "
+                      f"offset" if stale else f"the hoisted cell `{x.id}` is read for the line that is being measured")
         # ---- T2
         for n in own_nodes(f.node):
             tgt = val = None
@@ -364,6 +393,31 @@ def rule_frame(c: Ctx) -> RuleResult:
         raise AnchorError(f"only {n1} tab-stop computations / {n2} bsCount stores found")
     r.floor = 8
     return r
+
+
+def _store_names(n: ast.AST) -> list[ast.Name]:
+    tg: list[ast.AST] = []
+    if isinstance(n, ast.Assign):
+        tg = list(n.targets)
+    elif isinstance(n, (ast.AugAssign, ast.AnnAssign)):
+        tg = [n.target]
+    elif isinstance(n, ast.For):
+        tg = [n.target]
+    return [x for t in tg for x in ast.walk(t) if isinstance(x, ast.Name)]
+
+
+def _absolute(e: ast.AST) -> bool:
+    """The column expression carries the bsCount term on every alternative: a sum has it if one operand has it, a conditional
+    expression only if both arms do (`a + bsCount + 1 if flag else 0` parses as `(a + bsCount + 1) if flag else 0`)."""
+    if isinstance(e, ast.IfExp):
+        return _absolute(e.body) and _absolute(e.orelse)
+    if isinstance(e, ast.BinOp) and isinstance(e.op, (ast.Add, ast.Sub)):
+        return _absolute(e.left) or _absolute(e.right)
+    if isinstance(e, ast.BinOp):
+        return False
+    if isinstance(e, (ast.Constant, ast.Name)):
+        return False
+    return _mentions_bscount(e)
 
 
 def _is_ctor_scan(c: Ctx, f: Func) -> bool:
